@@ -13,8 +13,9 @@ CLAIMED = {
  # id: (text, note, technique, design_ref)
  'C17': ('Kernel-checked theorems over all n: the *generated* (re-translated from /repo on every run) encode_varint / parse_compact_size / '
          'vi_to_int / prepend_compact_size equal the CompactSize Spec (canonical, shortest, decoders invert, refusal outside 0..2^64-1); '
-         'Decimal/int amounts with <= 8 decimals convert exactly. Float amounts: correspondence against native binary64 only.',
-         NOTE_COMMON + 'CPython Decimal context (28 digits). Float branch not proved (partial).',
+         'Decimal/int amounts with <= 8 decimals convert exactly; float amounts up to 21e6 BTC convert exactly under the standard model of '
+         'binary64 rounding (hypothesis StdModel, proved error bound 0.4663 < 1/2) and by correspondence against native binary64.',
+         NOTE_COMMON + 'CPython Decimal context (28 digits); IEEE-754 round-to-nearest standard model for the float branch.',
          'Lean 4 proof over translated source + differential correspondence', '6/C17'),
  'C18': ('Kernel-checked theorems over all values: generated Sequence/Locktime helpers and _push_integer equal the BIP68/BIP112/BIP65 Spec '
          '(value in low 16 bits, bit 22 for 512 s units, bit 31 clear, same number in input and script, CSV satisfied in a v2 tx, range '
@@ -56,31 +57,31 @@ CLAIMED = {
          'parity from every generated control block. Curve facts enter as explicit hypotheses (lift_x of the key, tweak < n). Model tied to the '
          'code by the correspondence run.', NOTE_COMMON + 'SHA-256 parameter; lift_x(internal key) and tweak < n are hypotheses of the curve-dependent theorems.',
          'Lean 4 proof (hand model) + differential correspondence', '6/C08'),
- 'C07': ('Kernel-checked theorems: under the explicit group-law hypothesis CurveLaws, for every secret in [1,n-1], every tweak and both parities of '
+ 'C07': ('Kernel-checked theorems (the secp256k1 group-law facts CurveLaws are themselves proved: primes by Pratt certificates, Mathlib Weierstrass group law, n*G = 0 by kernel evaluation): for every secret in [1,n-1], every tweak and both parities of '
          'the internal and of the tweaked key, the secret derived by tweak_taproot_privkey is the discrete log of the point whose x coordinate the '
          'address commits to; a key-path signature verifies (BIP340) under exactly that output key, a script-path signature under the x-only '
          'internal key; 64/65-byte length rule. Model tied to the code by the correspondence run, in which every implementation signature is also '
          'verified by the Spec verifier under the Spec BIP341 digest.',
-         NOTE_COMMON + 'CurveLaws (group law on multiples of G, lift_x) is a hypothesis of the key-path theorems, not proved; SHA-256 parameter.',
-         'Lean 4 proof (hand model, CurveLaws hypothesis) + differential correspondence', '6/C07'),
+         NOTE_COMMON + 'SHA-256 parameter. CurveLaws is discharged (no curve hypothesis in the _unconditional theorems).',
+         'Lean 4 proof (hand model; curve group law proved via Mathlib) + differential correspondence', '6/C07'),
  'C20': ('Kernel-checked theorems: generated RIPEMD-160 tables and curve constants equal the specification\'s; the hand model of ripemd160.py '
          'equals Merkle-Damgard padding + fold of the specification\'s compression function for messages of every length; tagged hash definition; '
          'schnorr_verify equals BIP340 verification on all inputs (length, range and off-curve rejection), schnorr_sign returns exactly the BIP340 '
-         'signature, which verifies; under CurveLaws signing never fails. Model tied to the code by the correspondence run (libsecp256k1 as cross-oracle).',
-         NOTE_COMMON + 'RIPEMD-160 modelled over 32-bit words (masking abstraction covered by correspondence); CurveLaws hypothesis in sign_never_fails only.',
+         'signature, which verifies; signing never fails (group law proved). Model tied to the code by the correspondence run (libsecp256k1 as cross-oracle).',
+         NOTE_COMMON + 'RIPEMD-160 modelled over 32-bit words (masking abstraction covered by correspondence).',
          'Lean 4 proof (hand model + generated tables) + differential correspondence', '6/C20'),
  'C06': ('Kernel-checked theorems for every (r, s) in range (all byte-length classes): the hand model of the repository\'s own logic in _sign_input '
          '(low-R grinding on byte 3, decode, low-S, re-encode, hash-type byte) yields a strictly DER (BIP66) signature with r < 2^255, the low '
-         'representative of s and exactly the hash-type byte; under CurveLaws replacing s by n-s preserves validity. python-ecdsa (RFC6979 signing, DER '
+         'representative of s and exactly the hash-type byte; replacing s by n-s preserves validity (secp256k1 group law proved, no hypothesis). python-ecdsa (RFC6979 signing, DER '
          'codec) is a parameter whose per-attempt output is logged from the real library and replayed through the model each run; the Spec predicate '
          '(strict DER, low S, low R, valid for d*G under the library digest) is evaluated on every implementation signature; determinism observed.',
-         NOTE_COMMON + 'python-ecdsa signing is a parameter (validity of its signatures is checked on samples, not proved); CurveLaws hypothesis in lowS_preserves_validity.',
+         NOTE_COMMON + 'python-ecdsa signing is a parameter (validity of its signatures is checked on samples, not proved). CurveLaws is proved (BU/Proofs/CurveLawsFinal.lean), the _unconditional corollary carries no curve hypothesis.',
          'Lean 4 proof (hand model, third-party signer as parameter) + differential correspondence', '6/C06'),
  'C09': ('Kernel-checked theorems: WIF export/import round trip for every secret in [1,n-1] and one-byte prefix (generated per-network prefixes), '
          'standard form, rejection of bad checksum / other version byte / non-alphabet characters, an explicit secret is held exactly or construction '
-         'fails (only the argument-less call is random), public key = d*G, SEC standard forms, and under CurveLaws parsing the compressed, uncompressed '
-         'and x-only encodings of d*G returns the identical point; off-curve x rejected. Model tied to the code by the correspondence run.',
-         NOTE_COMMON + 'base58check, python-ecdsa constructors and sympy sqrt_mod modelled by their specifications; CurveLaws hypothesis in sec_roundtrip.',
+         'fails (only the argument-less call is random), public key = d*G, SEC standard forms, and parsing the compressed, uncompressed '
+         'and x-only encodings of d*G returns the identical point (curve facts proved); off-curve x rejected. Model tied to the code by the correspondence run.',
+         NOTE_COMMON + 'base58check, python-ecdsa constructors and sympy sqrt_mod modelled by their specifications.',
          'Lean 4 proof (hand model) + differential correspondence', '6/C09'),
  'C10': ('Kernel-checked theorems: address string = Base58Check(version || hash) with the generated per-network version bytes; an address object '
          'accepts a string only if it is Base58Check-valid with that version byte and a 20-byte payload and then holds exactly that payload; '
@@ -91,8 +92,9 @@ CLAIMED = {
          'network prefix the address decodes back to the same program (general convertbits and checksum round trips proved for the model of '
          'bech32.py), objects re-created from string or program hold the identical program, whatever is accepted has the right prefix, single '
          'case, charset, version and checksum variant, the predicate is true on every valid address and false on mixed case / bad checksum. '
-         'Detection of up to four substituted characters (BCH distance) is exercised by sampling only. Model tied to the code by the correspondence run.',
-         NOTE_COMMON + 'BCH minimum distance not proved (partial): substitution detection by correspondence sampling.',
+         'Substitutions: the checksum is proved GF(2)-linear and every 1- or 2-character substitution in the data part is proved rejected (1829 '
+         'single-error syndromes evaluated in the kernel); 3 and 4 substitutions are checked exhaustively by the compiled driver on every run (not a proof). Model tied to the code by the correspondence run.',
+         NOTE_COMMON + 'partial: detection of 3-4 substituted characters rests on an exhaustive compiled computation, not on a theorem.',
          'Lean 4 proof (hand model) + differential correspondence', '6/C11'),
  'C12': ('Kernel-checked theorems: the five locking-script templates evaluate, through the generated opcode dictionaries and the push-form tie, to the '
          'standard bytes for every 20/32-byte hash; script-hash commitments are RIPEMD160(SHA256(bytes)) / SHA256(bytes) of the exact script '
